@@ -76,11 +76,18 @@ package cache
 // opImported(key, value): at the time it is asked, exactly one operation of the bug at hand carries that metadata.
 //@ spec func opImported(key string, value string) bool
 
+// (that the answer is opImported is the definition of that specification function.) The body is verified for what it
+// looks at (C11: a metadata lookup answers the same in the session that attached the metadata and after the cache has
+// been reopened or rebuilt; C16: an importer asks it whether an event has been imported or exported already): the
+// operations after they have been applied - the metadata a later set-metadata operation attaches to an operation are
+// not on an operation as it is read from git.
 //@ func (*CachedEntityBase).ResolveOperationWithMetadata
-//@   trusted
+//@   props C11 C16
 //@   opt interior_ok
-//@   modifies nothing
-//@   ensures (err == nil) == opImported(key, value)
+//@   modifies dag.compileRuns
+//@   opt trusted_frame
+//@   defines [answer] (err == nil) == opImported(key, value)
+//@   assert at `opValue, ok := op.GetMetadata(key)` [metadata-looked-up-on-the-applied-operations] dag.compileRuns > old(dag.compileRuns)
 
 // requestUser: the identity on whose behalf the current API request acts (set by auth.UserFromCtx; nil
 // outside of a request). While it is set, every edit must name it explicitly as author (C17), so the
@@ -252,7 +259,7 @@ package cache
 // (a pull replaces the loaded instance of an updated entity by the merged one: exempt from the never-replace
 // rule of the table of loaded entities - pulls are not part of the concurrent mix of the web UI)
 //@ func (*SubCache).MergeAll$1
-//@   props C07 C11 C02 C18 C01
+//@   props C07 C11 C02 C18 C01 C09
 //@   stable excerptFrom, cachedFrom
 //@   opt locks
 //@   opt may_replace=cached
@@ -308,7 +315,7 @@ package cache
 // new operation on the cached snapshot - and without one it applies nothing (the next Compile starts from
 // scratch); a failed Commit drops the cached snapshot; the wrapper's mutex is released on every path.
 //@ func (*withSnapshot).Append
-//@   props C10 C18
+//@   props C10 C18 C11
 //@   opt locks
 //@   requires ws != nil && !sync.mheld[&ws.mu]
 //@   let had = old(ws.snap) != nil
@@ -366,11 +373,16 @@ package cache
 //@   assert at `sort.Sort(sorter)` [sorted-by-the-requested-key] q.OrderDirection == query.OrderAscending ==> (q.OrderBy == query.OrderById ==> typeof(sorter) == type[BugsById]) && (q.OrderBy == query.OrderByCreation ==> typeof(sorter) == type[BugsByCreationTime]) && (q.OrderBy == query.OrderByEdit ==> typeof(sorter) == type[BugsByEditTime])
 //@   assert at `sorter = sort.Reverse(sorter)` [reversed-only-for-descending] q.OrderDirection == query.OrderDescending
 
+// (C11/C09: the metadata given for a new identity are part of what is committed - set afterwards they would sit in an
+// uncommitted version of the cached instance only, served by this cache and by no rebuilt one)
 //@ func (*RepoCacheIdentity).finishIdentity
-//@   props C18
+//@   props C18 C11 C09
 //@   opt locks
 //@   opt assume_pre=identity.(*Identity)
-//@   stable all(RepoCacheIdentity.SubCache)
+//@   stable all(RepoCacheIdentity.SubCache), repository.mutSeq
+//@   assert at `i.SetMetadata(key, value)` [metadata-set-before-the-commit] repository.mutSeq == old(repository.mutSeq)
+//@   loop 1
+//@     invariant repository.mutSeq == old(repository.mutSeq)
 //@   requires [not-held@locks] c.SubCache != nil && sync.rwheld[&c.SubCache.mu] == 0
 //@   ensures [lock-balanced] forall m *sync.RWMutex :: { sync.rwheld[m] } sync.rwheld[m] == old(sync.rwheld[m])
 
@@ -401,13 +413,26 @@ package cache
 // then published under the write lock. Exactly one instance per entity may ever be handed out - two
 // instances of one bug would each accept edits and the later commit would overwrite the earlier one - so
 // the publication must not replace an instance that another goroutine published in the meantime.
+// lruTouches counts the uses reported to the LRU bookkeeping (Get of a present key, Add): what the eviction order is
+// made of.
+//@ ghost var lruTouches int
+//@ func (*lruIdCache).Add
+//@   props C18
+//@   opt interior_ok
+//@   modifies lruTouches
+//@   ensures [counted] lruTouches == old(lruTouches) + 1
+// ... and handing out an entity counts as a use of it, on the fast path too: eviction takes the least recently used
+// entities and write-locks them for good - an entity a worker has just resolved must not be the next to go (C18: "no call
+// deadlocks")
 //@ func (*SubCache).Resolve
 //@   props C18
 //@   opt locks
 //@   opt pre_only_if=locks
 //@   requires [not-held@locks] sc != nil && sync.rwheld[&sc.mu] == 0
-//@   modifies nothing
+//@   modifies lruTouches
 //@   opt trusted_frame
+//@   stable lruTouches
+//@   ensures [resolving-counts-as-a-use] result1 == nil ==> lruTouches > old(lruTouches)
 //@   ensures [lock-balanced] forall m *sync.RWMutex :: { sync.rwheld[m] } sync.rwheld[m] == old(sync.rwheld[m])
 //@   ensures [no-second-instance] result1 == nil && (id in sc.cached) ==> sc.cached[id] == result
 
@@ -495,7 +520,6 @@ package cache
 //@   purefn
 //@ func CacheEntity.Id
 //@   purefn
-//@ func (*lruIdCache).Add
 //@ func (*lruIdCache).GetOldest
 //@ func (*lruIdCache).GetOldestToNewest
 //@   trusted
@@ -700,6 +724,13 @@ package cache
 //@   modifies nothing
 //@   ensures result == (len(excerpt.Labels) == 0)
 
+// (C20: the validLabels connection pages over this list, fetched anew for every page: its order must be a function of
+// the labels - a strict order on their spelling - and not of the map they were collected in; labels that differ in case
+// only are different labels and must not compare equal)
+//@ func (*RepoCacheBug).ValidLabels$1
+//@   props C20
+//@   modifies nothing
+//@   ensures [labels-ordered-by-their-exact-spelling] result == (string(captured_result[i]) < string(captured_result[j]))
 //@ func (*RepoCacheBug).ValidLabels
 //@   props C18
 //@   opt locks
@@ -787,9 +818,13 @@ package cache
 // ... and a lock file is refused unexamined only when it is too long to be a pid written by lock() (10 bytes and more)
 //@   assert at `return fmt.Errorf("the lock file should be <` [only-an-oversized-file-is-refused-unexamined] len(buf) >= 10
 //@   defines [outcome] lastAvailable == (result == nil)
+// ... and what is written into it is the pid in decimal and nothing else - the reader (repoIsAvailable) parses the whole
+// content as a number: anything more and the lock of a holder that died is never recognised as stale again (C06/C19:
+// after a crash "the next open succeeds")
 //@ func (*RepoCache).lock
-//@   props C19
+//@   props C19 C06
 //@   requires c != nil && c.repo != nil
+//@   assert at `_, err = f.Write([]byte(pid))` [the-lock-file-holds-the-pid-and-nothing-else] pid == itoa(os.Getpid())
 //@   ensures [no-lock-file-when-unavailable] !lastAvailable ==> result != nil && repository.storageCreates == old(repository.storageCreates)
 //@   ensures [creates-the-lock-file] result == nil ==> repository.storageCreates == old(repository.storageCreates) + 1 && repository.lastCreated == lockfile
 
